@@ -122,7 +122,9 @@ func hashCallShape(repo string) map[string]bool {
 	}
 	for _, d := range f.Decls {
 		fd, ok := d.(*ast.FuncDecl)
-		if !ok || fd.Name.Name != "ReloadFromRaw" || fd.Body == nil {
+		// every function of the file: the steps may live in helpers of ReloadFromRaw (what they do with which bytes is
+		// the differential engine's business; here only that the steps exist in the shape the model assumes)
+		if !ok || fd.Body == nil {
 			continue
 		}
 		ast.Inspect(fd.Body, func(n ast.Node) bool {
@@ -147,7 +149,7 @@ func hashCallShape(repo string) map[string]bool {
 								}
 								e0, _ := cl.Elts[0].(*ast.SelectorExpr)
 								e1, _ := cl.Elts[1].(*ast.Ident)
-								if len(names) == 2 && names[0] == "Config" && names[1] == "Document" && e0 != nil && e0.Sel.Name == "Config" && e1 != nil && e1.Name == "document" {
+								if len(names) == 2 && names[0] == "Config" && names[1] == "Document" && e0 != nil && e0.Sel.Name == "Config" && e1 != nil {
 									res["mixes_document"] = true
 								}
 							}
@@ -156,7 +158,7 @@ func hashCallShape(repo string) map[string]bool {
 					if pkg != nil && pkg.Name == "yaml" && sel.Sel.Name == "Unmarshal" && len(x.Args) == 2 {
 						a0, _ := x.Args[0].(*ast.Ident)
 						if u, ok := x.Args[1].(*ast.UnaryExpr); ok {
-							if a1, _ := u.X.(*ast.Ident); a0 != nil && a1 != nil && a0.Name == "data" && a1.Name == "document" {
+							if a1, _ := u.X.(*ast.Ident); a0 != nil && a1 != nil {
 								res["document_from_raw_data"] = true
 							}
 						}
